@@ -108,7 +108,9 @@ extern "C" void harness_c02_remap_compare() {
 #define OPT_TO NOPT
 #endif
 typedef std::map<int, std::set<FunctionRemap *> > MapSets;
-static char remap_token[NREMAP];
+// the overloads are never dereferenced by collapse_default_remaps: fake pointers with concrete integer values keep the
+// std::set<FunctionRemap *> ordering (an integer comparison of the addresses) decidable during symbolic execution
+#define REMAP_TOKEN(i) ((FunctionRemap *)(uintptr_t)(4096 + 16 * (i)))
 
 static void opt_range(int opt, bool *present, int *lo, int *hi) {
   *present = opt != 0; *lo = 0; *hi = 0;
@@ -128,7 +130,7 @@ static void __attribute__((noinline)) collapse_case(InterfaceMakerPythonNative *
     if (!present[i]) continue;
     any = true;
     if (hi[i] > mra0) mra0 = hi[i];
-    for (int n = lo[i]; n <= hi[i]; n++) (*ms)[n].insert((FunctionRemap *)&remap_token[i]);
+    for (int n = lo[i]; n <= hi[i]; n++) (*ms)[n].insert(REMAP_TOKEN(i));
   }
   int top = mra0;
   int ret = self->collapse_default_remaps(*ms, mra0);
@@ -149,7 +151,7 @@ static void __attribute__((noinline)) collapse_case(InterfaceMakerPythonNative *
       int from = ret < k ? ret : k;
       if (n < from || n > k) continue;
       consulted++;
-      for (int i = 0; i < NREMAP; i++) if (it->second.count((FunctionRemap *)&remap_token[i])) ok[i] = true;
+      for (int i = 0; i < NREMAP; i++) if (it->second.count(REMAP_TOKEN(i))) ok[i] = true;
     }
     ASSERT(consulted <= 1, "C02 after collapsing, every argument count selects at most one overload set");
     for (int i = 0; i < NREMAP; i++) {
